@@ -21,6 +21,12 @@
 
 #include <cstddef>
 
+#ifdef UNODB_DETAIL_VERIF_HOOKS
+#include <type_traits>
+#endif
+
+#include "verif_hooks.hpp"
+
 namespace unodb {
 
 /// Fake version of optimistic_lock::read_critical_section used to align
@@ -104,25 +110,57 @@ class [[nodiscard]] in_fake_critical_section final {
   // NOLINTNEXTLINE(cert-oop54-cpp)
   constexpr in_fake_critical_section& operator=(
       const in_fake_critical_section& new_value) noexcept {
+#ifdef UNODB_DETAIL_VERIF_HOOKS
+    if (!std::is_constant_evaluated())
+      UNODB_DETAIL_VERIF_POINT(UNODB_DETAIL_VERIF_FAKE_STORE, &value);
+#endif
     value = new_value;
     return *this;
   }
 
   /// Assign \a new_value to the wrapped value.
   constexpr in_fake_critical_section& operator=(T new_value) noexcept {
+#ifdef UNODB_DETAIL_VERIF_HOOKS
+    if (!std::is_constant_evaluated())
+      UNODB_DETAIL_VERIF_POINT(UNODB_DETAIL_VERIF_FAKE_STORE, &value);
+#endif
     value = new_value;
     return *this;
   }
 
   /// Pre-increment the wrapped value.
+#ifdef UNODB_DETAIL_VERIF_HOOKS
+  constexpr void operator++() noexcept {
+    if (!std::is_constant_evaluated())
+      UNODB_DETAIL_VERIF_POINT(UNODB_DETAIL_VERIF_FAKE_STORE, &value);
+    ++value;
+  }
+#else
   constexpr void operator++() noexcept { ++value; }
+#endif
 
   /// Pre-decrement the wrapped value.
+#ifdef UNODB_DETAIL_VERIF_HOOKS
+  constexpr void operator--() noexcept {
+    if (!std::is_constant_evaluated())
+      UNODB_DETAIL_VERIF_POINT(UNODB_DETAIL_VERIF_FAKE_STORE, &value);
+    --value;
+  }
+#else
   constexpr void operator--() noexcept { --value; }
+#endif
 
   /// Post-decrement the wrapped value, returning the old value.
   // NOLINTNEXTLINE(cert-dcl21-cpp)
+#ifdef UNODB_DETAIL_VERIF_HOOKS
+  constexpr T operator--(int) noexcept {
+    if (!std::is_constant_evaluated())
+      UNODB_DETAIL_VERIF_POINT(UNODB_DETAIL_VERIF_FAKE_STORE, &value);
+    return value--;
+  }
+#else
   constexpr T operator--(int) noexcept { return value--; }
+#endif
 
   /// Checks whether the wrapped pointer is `nullptr`.
   [[nodiscard, gnu::pure]] constexpr bool operator==(
@@ -132,10 +170,26 @@ class [[nodiscard]] in_fake_critical_section final {
 
   /// Convert to the wrapped value, implicitly if needed.
   // NOLINTNEXTLINE(google-explicit-constructor,hicpp-explicit-conversions)
+#ifdef UNODB_DETAIL_VERIF_HOOKS
+  [[nodiscard]] constexpr operator T() const noexcept {
+    if (!std::is_constant_evaluated())
+      UNODB_DETAIL_VERIF_POINT(UNODB_DETAIL_VERIF_FAKE_LOAD, &value);
+    return value;
+  }
+#else
   [[nodiscard]] constexpr operator T() const noexcept { return value; }
+#endif
 
   /// Explicitly read the wrapped value.
+#ifdef UNODB_DETAIL_VERIF_HOOKS
+  [[nodiscard]] constexpr T load() const noexcept {
+    if (!std::is_constant_evaluated())
+      UNODB_DETAIL_VERIF_POINT(UNODB_DETAIL_VERIF_FAKE_LOAD, &value);
+    return value;
+  }
+#else
   [[nodiscard]] constexpr T load() const noexcept { return value; }
+#endif
 
   in_fake_critical_section(const in_fake_critical_section<T>&) = delete;
   in_fake_critical_section(in_fake_critical_section<T>&&) noexcept = delete;
